@@ -294,6 +294,11 @@ func (rw *ReadWriter) Initialize() error {
 	if !strings.HasPrefix(rw.elemType.Name(), "Message") {
 		return fmt.Errorf("struct name must begin with 'Message'")
 	}
+	// the name of the message is obtained by dropping the underscore that msgGoToDef
+	// inserts before the first letter: this requires an uppercase letter after 'Message'
+	if suffix := rw.elemType.Name()[len("Message"):]; suffix == "" || suffix[0] < 'A' || suffix[0] > 'Z' {
+		return fmt.Errorf("struct name must begin with 'Message', followed by an uppercase letter")
+	}
 	msgName := msgGoToDef(rw.elemType.Name()[len("Message"):])
 
 	// collect message fields
